@@ -3,6 +3,7 @@ package rules
 import (
 	"fmt"
 	"go/constant"
+	"go/token"
 	"go/types"
 	"strings"
 
@@ -285,15 +286,46 @@ func c18(c *Ctx) {
 
 	// ---- backoff
 	okSleep, okBo := false, false
+	okAlways, whyAlways := false, "no reschedule goroutine with a schedule request found"
 	for _, f := range gc.AnonFuncs {
 		var send ssa.Instruction
 		for _, sd := range sendsIn(f) {
 			send = sd.Instr
 		}
 		if send != nil {
+			// every way out of the goroutine has sent the schedule request: a reset node that is
+			// never scheduled stays NEW forever and blocks the restart of its parent's subtree
+			okAlways, whyAlways = true, ""
+			eachInstr(f, func(i ssa.Instruction) {
+				if r, ok := i.(*ssa.Return); ok {
+					if !facts.Before(r, func(j ssa.Instruction) bool { return j == send }) {
+						okAlways, whyAlways = false, "a return of the reschedule goroutine at "+c.rel(p.Pos(instrPos(r)))+" is reachable without sending the schedule request"
+					}
+				}
+			})
+			isTimerChan := func(v ssa.Value) bool {
+				t := facts.Term(v)
+				return strings.HasPrefix(t, "time.After(bo)") || strings.HasPrefix(t, "time.NewTimer(bo)") && strings.HasSuffix(t, ".C")
+			}
+			sendFacts := facts.At(send, nil)
 			okSleep = facts.Before(send, func(i ssa.Instruction) bool {
-				cl, ok := i.(*ssa.Call)
-				return ok && facts.CalleeName(&cl.Call) == "time.Sleep" && facts.Term(cl.Call.Args[0]) == "bo"
+				switch x := i.(type) {
+				case *ssa.Call:
+					return facts.CalleeName(&x.Call) == "time.Sleep" && facts.Term(x.Call.Args[0]) == "bo"
+				case *ssa.UnOp:
+					// <-time.After(bo)
+					return x.Op == token.ARROW && isTimerChan(x.X)
+				case *ssa.Select:
+					// select { case <-time.After(bo): … }: the send must lie on the timer case
+					for k, st := range x.States {
+						if st.Dir == types.RecvOnly && isTimerChan(st.Chan) && x.Blocking {
+							if facts.HasAtom(sendFacts, fmt.Sprintf("%d == %s#0", k, facts.Term(x))) {
+								return true
+							}
+						}
+					}
+				}
+				return false
 			})
 		}
 	}
@@ -326,6 +358,7 @@ func c18(c *Ctx) {
 			okBo = good
 		}
 	})
+	R.Check("C18.backoff", "C18.backoff/always-scheduled", c.rel(p.Pos(gc.Pos())), "a node that was reset for restart is always scheduled again (the goroutine cannot end without sending the request)", okAlways, whyAlways)
 	R.Check("C18.backoff", "C18.backoff/sleep-before-schedule", c.rel(p.Pos(gc.Pos())), "the reschedule goroutine sleeps for the back-off before it sends the schedule request", okSleep, "no time.Sleep(bo) before the send")
 	R.Check("C18.backoff", "C18.backoff/dead-backs-off", c.rel(p.Pos(gc.Pos())), "the back-off is NextBackOff() exactly when the node is DEAD (cancelled nodes restart immediately)", okBo, "back-off selection changed")
 
